@@ -24,13 +24,13 @@ use std::sync::Arc;
 
 // ------------------------------------------------------------------ instruction view of a script
 #[derive(Clone, PartialEq, Eq, Debug)]
-enum Ins {
+pub(crate) enum Ins {
     Push(Vec<u8>), // data push (any push opcode)
     Op(u8),        // any other byte, including OP_1NEGATE / OP_1..16
 }
 
 /// permissive parse (no minimality requirements); stops at the first truncated push
-fn parse_ins(b: &[u8]) -> (Vec<Ins>, bool) {
+pub(crate) fn parse_ins(b: &[u8]) -> (Vec<Ins>, bool) {
     let mut out = Vec::new();
     let mut i = 0;
     while i < b.len() {
@@ -238,13 +238,13 @@ fn gdump<Pk: MiniscriptKey + ToPublicKey, Ctx: ScriptContext>(w: &World, tap: bo
     }
 }
 
-fn gdump_str<Pk: MiniscriptKey + ToPublicKey, Ctx: ScriptContext>(w: &World, tap: bool, t: &Terminal<Pk, Ctx>) -> String {
+pub(crate) fn gdump_str<Pk: MiniscriptKey + ToPublicKey, Ctx: ScriptContext>(w: &World, tap: bool, t: &Terminal<Pk, Ctx>) -> String {
     let mut v = Vec::new();
     gdump(w, tap, t, &mut v);
     v.join(" ")
 }
 
-fn ty_str(t: &miniscript::miniscript::types::Type) -> String {
+pub(crate) fn ty_str(t: &miniscript::miniscript::types::Type) -> String {
     use miniscript::miniscript::types::{Base, Dissat, Input};
     let b = match t.corr.base {
         Base::B => "B",
@@ -279,7 +279,7 @@ fn tok_str(t: &Token) -> String {
 }
 
 /// error class: the variant names of the error value, never its message
-fn err_class(e: &miniscript::Error) -> String {
+pub(crate) fn err_class(e: &miniscript::Error) -> String {
     let s = format!("{:?}", e);
     let mut idents: Vec<String> = Vec::new();
     let mut cur = String::new();
@@ -325,7 +325,7 @@ struct CtxDesc {
     tap: bool,
 }
 
-fn key_valid(tap: bool, b: &[u8]) -> bool {
+pub(crate) fn key_valid(tap: bool, b: &[u8]) -> bool {
     // the oracle side: rust-bitcoin / secp256k1 directly
     if tap {
         bitcoin::secp256k1::XOnlyPublicKey::from_slice(b).is_ok()
@@ -439,7 +439,7 @@ const OP_SWAPS: [(u8, u8); 14] = [
     (0x73, 0x76),
 ];
 
-fn all_edits(w: &World, tap: bool, ins: &[Ins]) -> Vec<(String, Vec<u8>)> {
+pub(crate) fn all_edits(w: &World, tap: bool, ins: &[Ins]) -> Vec<(String, Vec<u8>)> {
     let mut out: Vec<(String, Vec<u8>)> = Vec::new();
     let with = |i: usize, repl: &[Ins]| -> Vec<u8> {
         let mut v: Vec<Ins> = ins[..i].to_vec();
@@ -619,7 +619,7 @@ fn bin<Ctx: ScriptContext>(f: fn(Arc<Ms<Ctx>>, Arc<Ms<Ctx>>) -> Terminal<Key, Ct
 /// hand-made shapes the random generator reaches rarely or never: number-size break points,
 /// large multi / multi_a / thresh, and_v associations, c:/v:/n: over and_v, pk_h, sortedmulti.
 /// Anything from_ast rejects in this context is skipped.
-fn directed<Ctx: ScriptContext>(w: &World, tap: bool, nk: usize) -> Vec<Ms<Ctx>> {
+pub(crate) fn directed<Ctx: ScriptContext>(w: &World, tap: bool, nk: usize) -> Vec<Ms<Ctx>> {
     use Terminal as T;
     let mut out: Vec<Ms<Ctx>> = Vec::new();
     let key = |i: usize| w.key(i % nk, tap);
@@ -757,7 +757,7 @@ fn directed<Ctx: ScriptContext>(w: &World, tap: bool, nk: usize) -> Vec<Ms<Ctx>>
 }
 
 // ------------------------------------------------------------------ per-context run
-fn opcode_soup(rng: &mut Rng, w: &World, tap: bool) -> Vec<u8> {
+pub(crate) fn opcode_soup(rng: &mut Rng, w: &World, tap: bool) -> Vec<u8> {
     // token sequences made of the opcodes Miniscript uses: reaches deep into the parser
     const OPS: [u8; 34] = [
         0x00, 0x51, 0x52, 0x60, 0x63, 0x64, 0x67, 0x68, 0x69, 0x6b, 0x6c, 0x73, 0x75, 0x76, 0x7c, 0x82, 0x87, 0x88, 0x92, 0x93, 0x9a, 0x9b,
@@ -779,7 +779,7 @@ fn opcode_soup(rng: &mut Rng, w: &World, tap: bool) -> Vec<u8> {
     ser_ins(&v)
 }
 
-fn directed_bytes(w: &World, tap: bool) -> Vec<(String, Vec<u8>)> {
+pub(crate) fn directed_bytes(w: &World, tap: bool) -> Vec<(String, Vec<u8>)> {
     let mut out: Vec<(String, Vec<u8>)> = Vec::new();
     let key = |i: usize| Ins::Push(w.key_bytes(i, tap));
     out.push(("empty".into(), vec![]));
@@ -939,7 +939,7 @@ where
     print!("{}", out);
 }
 
-fn world_lines(w: &World) {
+pub(crate) fn world_lines(w: &World) {
     use bitcoin::hashes::hash160;
     for i in 0..N_KEYS {
         let full = w.key_bytes(i, false);
